@@ -35,6 +35,7 @@ def parseEChain : List String → Option Map.EChain
   | ["occ_remove_entry"] => some .occRemoveEntry
   | ["occ_insert", vid, v] => some (.occInsert (nat! vid) (nat! v))
   | ["occ_get_mut", nv] => some (.occGetMut (nat! nv))
+  | ["occ_into_mut", nv] => some (.occGetMut (nat! nv))
   | ["replace_entry_with", m, nv] => some (.replaceEntryWith (m == "keep") (nat! nv))
   | ["and_replace_entry_with", m, nv] => some (.andReplaceEntryWith (m == "keep") (nat! nv))
   | ["vac_insert", vid, v] => some (.vacInsert (nat! vid) (nat! v))
@@ -63,6 +64,8 @@ def parseRawChain : List String → Option Map.RawChain
   | ["occ_insert", vid, v] => some (.occInsert (nat! vid) (nat! v))
   | ["occ_insert_key", kid] => some (.occInsertKey (nat! kid))
   | ["and_modify", nv] => some (.andModify (nat! nv))
+  | ["into_key_value", nv] => some (.andModify (nat! nv))
+  | ["key_mut_get_mut", nv] => some (.andModify (nat! nv))
   | ["replace_entry_with", m, nv] => some (.replaceEntryWith (m == "keep") (nat! nv))
   | ["drop"] => some .drop
   | _ => none
